@@ -220,11 +220,11 @@ PROPS["C01"] = {
 }
 
 PROPS["C03"] = {
-    "module": "MsiProofs.Props.C03",
+    "module": "MsiProofs.Props.C03b",
     "gen": ["limits", "column", "category"],
     "profiles": ["dev"],
-    "theorems": ["MsiProofs.C03.filterRows_spec", "MsiProofs.C03.deleteGo_rows", "MsiProofs.C03.updPlan_spec", "MsiProofs.C03.insert_adds_exactly"],
-    "level_text": 'Lean theorems: the row loops of select, delete and update equal filter / keep-if-not / map-if of the relational model for every table, row list and condition; insert adds exactly the given rows to a key-sorted map. Frame condition and lift over histories: correspondence + an independent in-memory relational reference (harness/src/refdb.rs) compared after every step, plus all operation sequences to depth 3 (quick) / 4 (thorough) over a small alphabet.',
+    "theorems": ["MsiProofs.C03.filterRows_spec", "MsiProofs.C03.deleteGo_rows", "MsiProofs.C03.updPlan_spec", "MsiProofs.C03.insert_adds_exactly", "MsiProofs.C03.incref_ext", "MsiProofs.C03.insert_refines", "MsiProofs.C03.insert_then_load", "MsiProofs.C03.decref_spec", "MsiProofs.C03.deleteGo_refines", "MsiProofs.C03.delete_refines", "MsiProofs.C03.delete_then_load", "MsiProofs.C03.readRows_rowOk", "MsiProofs.C03.write_read"],
+    "level_text": 'STATE-LEVEL REFINEMENT: Insert::exec and Delete::exec refine the relational insert / delete on the package state. insert_then_load: after a successful insert the new state reads the table as - in values - exactly the old rows plus the new ones (with "" stored as null), in strictly ascending key order, the pool only having been extended (live entries keep their text), no other stream touched. delete_then_load: with the pools reference counts covering the stored references (Accounted; any other cells of interest may be included), after a successful delete the new state reads exactly the stored rows on which the condition - evaluated on their original values - is false, in order; every remaining cell anywhere keeps its value and the accounting keeps holding (the hypothesis hconst of the loop-level theorem is discharged). Rows read fit their columns and are read back as written (readRows_rowOk, write_read). Update::exec at state level: not proved (loop-level specs only). Lean theorems: the row loops of select, delete and update equal filter / keep-if-not / map-if of the relational model for every table, row list and condition; insert adds exactly the given rows to a key-sorted map. Frame condition and lift over histories: correspondence + an independent in-memory relational reference (harness/src/refdb.rs) compared after every step, plus all operation sequences to depth 3 (quick) / 4 (thorough) over a small alphabet.',
     "level_note": "Trusted: Lean kernel; the hand-written package model (MsiModel/Pkg.lean, PkgApi.lean, Pool, Table, PropSet, Summary), tied to the code by byte-exact correspondence: the same request histories run on the real crate and on the model's definitions, compared on every reply including full snapshots and the raw bytes of every saved stream; cfb is modelled as a finite map from names (compared by UTF-16 length and upper-cased text) to byte strings; the 24 table-backed code pages are modelled on ASCII text only (non-ASCII text is exercised under UTF-8; all pages are exercised by the oracle on the real code).",
     "technique": 'Lean 4 proof (loops = list operations, by induction) + exhaustive small-alphabet sequences + reference database oracle',
     "rule": 'seeded random sessions: package type, database code page, 1-3 tables with random schemas (types, widths, flags, ranges, categories, enumerations, composite/nullable keys), inserts (valid with controlled invalid mutations), updates (incl. key columns), deletes, selects, stream writes/removes (0..9000 bytes), summary setters/clearers, create/drop table, rejected calls, close/reopen in all three modes at random positions, snapshot after every step, raw bytes after flush. non-trivial = distinct successful mutating requests + decoded files',
